@@ -53,6 +53,10 @@ class Check(PropCheck):
             kind = rng.random()
             if kind < 0.4:
                 t = gen.rand_tree(rng, n, mode, p_multi=0.0, internal_names=0.2)
+                if mode == 'exact' and rng.random() < 0.25:
+                    for nd in t.nodes():
+                        if nd.length is not None and rng.random() < 0.3:
+                            nd.length = -nd.length
                 ops = [gen.parse_op(gen.to_newick(t))]
             elif kind < 0.6:
                 t = gen.rand_tree(rng, n, mode, p_multi=rng.choice([0.3, 0.6]), p_unary=rng.choice([0, 0.1]), internal_names=0.2)
